@@ -28,6 +28,7 @@ pub fn modea_cell(spec: &Value) -> Value {
     let mut reruns = 0u64;
     let mut viol_reruns = 0u64;
     let mut sample: Option<Value> = None;
+    let mut unfinished = 0u64;
     let stats = explore(bound, max_exec, &mut |prefix: &[u16]| {
         let tr = modea::run(&cfg, prefix);
         n += 1;
@@ -42,7 +43,10 @@ pub fn modea_cell(spec: &Value) -> Value {
         if tr.stuck {
             c.machinery_errors.push(format!("worker neither receives nor exits (real-time backstop) in {} choices {:?}", cfg.brief(), prefix));
         }
-        let vs = monitors::check_all(&tr);
+        let (vs, summ) = monitors::check_all_s(&tr);
+        if !summ.finished {
+            unfinished += 1;
+        }
         let relevant: Vec<&monitors::MViol> = vs.iter().filter(|v| v.property_hint.iter().any(|p| props.iter().any(|q| q == p)) || v.clause.starts_with("MACHINERY")).collect();
         // determinism: every 1000th execution and (a bounded number of) violating ones are replayed and compared
         let rerun = n % 1000 == 1 || (!relevant.is_empty() && viol_reruns < 20);
@@ -96,6 +100,10 @@ pub fn modea_cell(spec: &Value) -> Value {
         c.capped.push(format!("execution cap {} hit in {} (deviation level {} completed)", max_exec, cfg.brief(), stats.max_dev_completed));
     }
     c.add_extra("distinct_traces", hashes.len() as u64);
+    c.add_extra("executions_ending_unfinished", unfinished);
+    if spec.get("fsize").is_some() {
+        c.add_extra("write_error_executions_unfinished", unfinished);
+    }
     for h in hashes.iter().take(32) {
         c.trace_hashes.insert(*h);
     }
